@@ -182,11 +182,23 @@ func waitParked(marker string, want int, done <-chan struct{}) (parked, ok bool)
 	}
 }
 
+// baseOf: goroutines with the marker that are already parked for good before a call starts. Only an earlier call
+// that was reported stuck can have left one behind (every case joins its own goroutines).
+func baseOf(marker string) int {
+	if stuck == 0 {
+		return 0
+	}
+	return parkedCount(marker)
+}
+
+const unobserved = "unobservable"
+
 // await receives the result of a call that runs in its own goroutine. After the watchdog it does not give up
 // at once (the machine may have been stalled): the call gets more time, and it is reported as blocked only
-// when a goroutine with the marker (the code under test, or a partner) IS parked on a channel operation (one-sided: a slow machine
-// never produces "blocked"), or as not returning after a very long time.
-func await[T any](ch <-chan T, marker string) (v T, status string) {
+// when MORE goroutines with the marker (the code under test, or a partner) than before the call (base) are seen
+// parked on a channel operation. One-sided: a slow or stalled machine never produces "blocked". If after two
+// more minutes the call has neither returned nor been seen parked, nothing can be concluded: Unobservable.
+func await[T any](c *core.Ctx, ch <-chan T, marker string, base int) (v T, status string) {
 	t := time.NewTimer(watchdog)
 	defer t.Stop()
 	select {
@@ -201,7 +213,7 @@ func await[T any](ch <-chan T, marker string) (v T, status string) {
 		default:
 		}
 		time.Sleep(5 * time.Millisecond)
-		if i >= 200 && i%100 == 0 && parkedCount(marker) > 0 {
+		if i >= 200 && i%100 == 0 && parkedCount(marker) > base {
 			select {
 			case v = <-ch:
 				return v, ""
@@ -210,7 +222,21 @@ func await[T any](ch <-chan T, marker string) (v T, status string) {
 			return v, "seen parked on a channel operation"
 		}
 	}
-	return v, "not parked, but did not return for two minutes"
+	c.Unobservable("C19: a call neither returned nor was seen parked within two minutes (stalled machine?)")
+	return v, unobserved
+}
+
+// gaveUp handles the status of await: "" = returned; otherwise the case is abandoned, and it is a failure of the
+// implementation only when the call was SEEN blocked.
+func gaveUp(c *core.Ctx, status, what, detail string) bool {
+	if status == "" {
+		return false
+	}
+	stuck++
+	if status != unobserved {
+		c.Fail(what, detail+" ("+status+")")
+	}
+	return true
 }
 
 //go:noinline
@@ -324,9 +350,16 @@ func run(c *core.Ctx) {
 	// RecvQueued / RecvQueuedFull with senders already parked on the full (or unbuffered) channel: exhaustive small scope, exact
 	for cp := 0; cp <= c.N(3, 4, 4); cp++ {
 		for np := 1; np <= 3; np++ {
-			for lim := 0; lim <= cp+np+1; lim++ {
+			for lim := -2; lim <= cp+np+1; lim++ {
 				for _, fn := range []string{"RecvQueued", "RecvQueuedFull"} {
-					exec(c, Case{Fn: fn, Cap: cp, Fill: seq(cp, 1), Parked: seq(np, 50), Limit: lim})
+					if lim < 0 && fn == "RecvQueuedFull" {
+						continue
+					}
+					l := lim
+					if lim == -2 {
+						l = -64 // negative limits: nothing is taken, every sender stays parked
+					}
+					exec(c, Case{Fn: fn, Cap: cp, Fill: seq(cp, 1), Parked: seq(np, 50), Limit: l})
 				}
 			}
 		}
@@ -403,6 +436,7 @@ func execDrain(c *core.Ctx, cs Case) {
 	ch := mkchan(cs)
 	fin := make(chan string, 1)
 	msg := ""
+	hb := baseOf(markHelper)
 	go func() {
 		fin <- core.Try(func() {
 			rest := cs.Fill
@@ -429,9 +463,7 @@ func execDrain(c *core.Ctx, cs Case) {
 			}
 		})
 	}()
-	if kind, status := await(fin, markHelper); status != "" {
-		stuck++
-		c.Fail("call blocked", "draining with RecvQueued/RecvQueuedFull did not finish ("+status+")")
+	if kind, status := await(c, fin, markHelper, hb); gaveUp(c, status, "call blocked", "draining with RecvQueued/RecvQueuedFull did not finish") {
 		return
 	} else if kind != "" {
 		c.Fail("panic", kind)
@@ -712,6 +744,7 @@ func execQueued(c *core.Ctx, cs Case) {
 	var got []int
 	var cnt int
 	resc := make(chan string, 1)
+	hb := baseOf(markHelper)
 	go func() {
 		resc <- core.Try(func() {
 			if cs.Fn == "RecvQueued" {
@@ -721,11 +754,11 @@ func execQueued(c *core.Ctx, cs Case) {
 			}
 		})
 	}()
-	kind, status := await(resc, markHelper)
-	if status != "" {
-		stuck++
-		c.Fail("call blocked", fmt.Sprintf("%s did not return (%s); it must never block", cs.Fn, status))
-		emit(coqCase(cs, before, fmt.Sprintf("[SHelp %d]", n+2), false, true, "OBlocked", nil, cs.Closed, nil))
+	kind, status := await(c, resc, markHelper, hb)
+	if gaveUp(c, status, "call blocked", cs.Fn+" did not return; it must never block") {
+		if status != unobserved {
+			emit(coqCase(cs, before, fmt.Sprintf("[SHelp %d]", n+2), false, true, "OBlocked", nil, cs.Closed, nil))
+		}
 		return
 	}
 	left, closedAfter := drain(ch)
@@ -807,6 +840,7 @@ func execQueuedParked(c *core.Ctx, cs Case) {
 	var got []int
 	var cnt int
 	resc := make(chan string, 1)
+	hb := baseOf(markHelper)
 	go func() {
 		resc <- core.Try(func() {
 			if cs.Fn == "RecvQueued" {
@@ -817,10 +851,8 @@ func execQueuedParked(c *core.Ctx, cs Case) {
 			}
 		})
 	}()
-	kind, status := await(resc, markHelper)
-	if status != "" {
-		stuck++
-		c.Fail("call blocked", fmt.Sprintf("%s did not return (%s); it must never block", cs.Fn, status))
+	kind, status := await(c, resc, markHelper, hb)
+	if gaveUp(c, status, "call blocked", cs.Fn+" did not return; it must never block") {
 		return
 	}
 	// every sender has now either completed or is still parked: wait until that is what the goroutine states say
@@ -851,9 +883,7 @@ func execQueuedParked(c *core.Ctx, cs Case) {
 	sched = append(sched, fmt.Sprintf("SHelp %d", n+2), fmt.Sprintf("SExpect %d %d 0", nbuf, left))
 	rest, closedAfter := drain(ch) // releases the senders that were still parked, in order
 	for _, d := range dones {
-		if _, status := await(d, markPartner); status != "" {
-			stuck++
-			c.Fail("partner stuck", "a parked sender never completed although the channel was drained ("+status+")")
+		if _, status := await(c, d, markPartner, base); gaveUp(c, status, "partner stuck", "a parked sender never completed although the channel was drained") {
 			return
 		}
 	}
@@ -913,6 +943,7 @@ func execNil(c *core.Ctx, cs Case) {
 	var ch chan int
 	fin := make(chan string, 1)
 	msg := ""
+	hb := baseOf(markHelper)
 	go func() {
 		fin <- core.Try(func() {
 			if got := chans.RecvQueued(ch, 5); len(got) != 0 {
@@ -938,9 +969,8 @@ func execNil(c *core.Ctx, cs Case) {
 			}
 		})
 	}()
-	if kind, status := await(fin, markHelper); status != "" {
-		stuck++
-		c.Fail("call blocked", "a helper blocked on a nil channel where it must return ("+status+")")
+	if kind, status := await(c, fin, markHelper, hb); gaveUp(c, status, "call blocked", "a helper blocked on a nil channel where it must return") {
+		return
 	} else if kind != "" {
 		c.Fail("panic", kind)
 	} else if msg != "" {
@@ -965,6 +995,7 @@ func execConcurrent(c *core.Ctx, cs Case) {
 	}()
 	var all []int
 	fin := make(chan string, 1)
+	hb := baseOf(markHelper)
 	go func() {
 		fin <- core.Try(func() {
 			full := false
@@ -993,9 +1024,7 @@ func execConcurrent(c *core.Ctx, cs Case) {
 			}
 		})
 	}()
-	if kind, status := await(fin, markHelper); status != "" {
-		stuck++
-		c.Fail("call blocked", "consumer did not finish ("+status+")")
+	if kind, status := await(c, fin, markHelper, hb); gaveUp(c, status, "call blocked", "consumer did not finish") {
 		return
 	} else if kind != "" {
 		c.Fail("panic", kind)
@@ -1074,10 +1103,11 @@ func execTimedOnce(c *core.Ctx, cs Case, report bool) bool {
 			partnerSend(ch, cs.Value, &partnerSent, partnerDone)
 		}
 	}
-	base := 0 // partner goroutines of earlier (failed) cases that are parked for good
+	base := baseOf(markPartner) // partner goroutines of earlier (failed) cases that are parked for good
 	if cs.Sit == "parked" || closesAtEnd(cs) {
 		base = parkedCount(markPartner)
 	}
+	hb := baseOf(markHelper)
 	observed := "" // what was seen on runtime.Stack / len(ch) at the gate, for the model
 	switch cs.Sit {
 	case "partner":
@@ -1132,11 +1162,9 @@ func execTimedOnce(c *core.Ctx, cs Case, report bool) bool {
 	}()
 	sched, exact := plan(cs, isSend)
 	sched = strings.Replace(sched, "SExpect@", observed, 1)
-	o, status := await(resc, markHelper)
-	if status != "" {
-		stuck++
-		c.Fail("call blocked", fmt.Sprintf("%s did not return in a scenario where it must (%s)", cs.Fn, status))
-		if !cs.NoModel {
+	o, status := await(c, resc, markHelper, hb)
+	if gaveUp(c, status, "call blocked", cs.Fn+" did not return in a scenario where it must") {
+		if !cs.NoModel && status != unobserved {
 			c.Emit(coqCase(cs, nil, sched, doneAtCall, exact, "OBlocked", nil, cs.Closed, nil))
 		}
 		return true
@@ -1152,10 +1180,9 @@ func execTimedOnce(c *core.Ctx, cs Case, report bool) bool {
 		}
 		close(ch)
 	}
-	if _, status := await(partnerDone, markPartner); status != "" {
-		stuck++
-		c.Fail("partner stuck", fmt.Sprintf("%s returned %+v but the partner goroutine never completed its operation (%s)", cs.Fn, o, status))
-		if !cs.NoModel {
+	if _, status := await(c, partnerDone, markPartner, base); gaveUp(c, status, "partner stuck",
+		fmt.Sprintf("%s returned %+v but the partner goroutine never completed its operation", cs.Fn, o)) {
+		if !cs.NoModel && status != unobserved {
 			c.Emit(coqCase(cs, nil, sched, doneAtCall, exact, "OBlocked", nil, cs.Closed, nil))
 		}
 		return true
